@@ -507,7 +507,7 @@ def run(ctx):
     dbg = [] if os.environ.get('C09_DEBUG') else None
     replay_witnesses(ctx, plats)
     nexpr = ctx.n(2000, 100000)
-    per = 25
+    per = 40
     units = max(len(plats) * 2, (nexpr + per - 1) // per)
     vrun.pmap(lambda i: _case(ctx, i, plats, per, dbg), range(units), workers=8)
     if dbg is not None:
